@@ -1,7 +1,10 @@
 #!/bin/sh
 # Runs "$@" in a private network namespace with AnyIP routes so that arbitrary IPv4/IPv6 targets are
-# routable (local != target), nothing leaves the namespace, and loopback listeners can bind the targets.
-exec unshare -n sh -c '
+# routable (local != target), nothing leaves the namespace, and loopback listeners can bind the targets; in a private mount
+# namespace /etc/hosts is the harness's own file (names four.test, six.test, dual46.test, dual64.test).
+H=$(cd "$(dirname "$0")/../harness" && pwd)/hosts
+exec unshare -n -m --propagation private sh -c '
+mount --bind "$0" /etc/hosts
 ip link set lo up
 ip addr add 10.77.0.1/32 dev lo
 ip route add local 198.51.100.0/24 dev lo src 10.77.0.1
@@ -11,4 +14,4 @@ ip -6 addr add 2001:db8:77::1/128 dev lo
 ip -6 route add local 2001:db8:99::/48 dev lo src 2001:db8:77::1
 ip -6 route add default dev lo src 2001:db8:77::1
 sysctl -qw net.ipv4.ip_nonlocal_bind=1 net.ipv6.ip_nonlocal_bind=1 2>/dev/null
-exec "$@"' sh "$@"
+exec "$@"' "$H" "$@"
